@@ -9,8 +9,9 @@ from harness import common, tlc
 
 
 def registry():
-    from harness.props import reqwait, errorclass, session, dispatch, handshake, versioning, framing, framing_out, lifecycle, host, http, sse
+    from harness.props import reqwait, errorclass, session, dispatch, handshake, versioning, framing, framing_out, lifecycle, host, http, sse, codec
     return {
+        "C17": codec.check_c17,
         "C12": sse.check_c12,
         "C11": http.check_c11,
         "C20": host.check_c20,
